@@ -35,7 +35,7 @@ def sh(cmd, cwd=None, timeout=3600, env=None, input=None):
 
 
 # ---------------------------------------------------------------- harness
-def build_harness(profile="dev"):
+def build_harness(profile="dev", bin="gverif"):
     """Incremental cargo build of /verif/harness against /repo's working tree."""
     with Lock("cargo"):
         lock_src = os.path.join(REPO, "Cargo.lock")
@@ -43,7 +43,7 @@ def build_harness(profile="dev"):
         if not os.path.exists(lock_dst):
             import shutil
             shutil.copy(lock_src, lock_dst)
-        cmd = ["cargo", "build", "--offline", "--quiet"]
+        cmd = ["cargo", "build", "--offline", "--quiet", "--bin", bin]
         if profile != "dev":
             cmd += ["--profile", profile]
         t0 = time.time()
@@ -52,10 +52,11 @@ def build_harness(profile="dev"):
             sys.stdout.write(out[-6000:])
             raise SystemExit("harness build failed (profile %s)" % profile)
         d = "debug" if profile == "dev" else profile
-        return os.path.join(TARGET, d, "gverif"), time.time() - t0
+        return os.path.join(TARGET, d, bin), time.time() - t0
 
 
 def run_harness(binpath, sub, cases, timeout=600, per_case_restart=True):
+    sub = [sub] if isinstance(sub, str) else list(sub)
     """Feed JSON cases (dicts with an 'id') to `gverif <sub>`; survive aborts:
     a case whose result is missing because the process died is reported as
     {'id':..,'abort':rc} and the remaining cases are re-submitted."""
@@ -64,7 +65,7 @@ def run_harness(binpath, sub, cases, timeout=600, per_case_restart=True):
     while pending:
         inp = "".join(json.dumps(c) + "\n" for c in pending)
         try:
-            p = subprocess.run([binpath, sub], input=inp, stdout=subprocess.PIPE,
+            p = subprocess.run([binpath] + sub, input=inp, stdout=subprocess.PIPE,
                                stderr=subprocess.PIPE, timeout=timeout, env=ENV, text=True)
             rc, out, err = p.returncode, p.stdout, p.stderr
         except subprocess.TimeoutExpired as e:
@@ -258,34 +259,41 @@ def coq_eval(name, body, timeout=600):
 
 
 # ---------------------------------------------------------------- OCaml model driver
-def build_ocaml():
-    """Extract the executable model (coq/extract/Extract.v -> .work/ocaml/model.ml) and build
-    the line-protocol driver.  Returns the driver path."""
-    od = os.path.join(WORK, "ocaml")
+def build_ocaml(topic):
+    """Extract the executable model of one topic (coq/extract/Extract<Topic>.v ->
+    coq/extract/<topic>_model.ml) and build its line-protocol driver
+    (ocaml/prelude.ml + ocaml/<topic>.ml).  Returns the driver path."""
+    od = os.path.join(WORK, "ocaml", topic)
     os.makedirs(od, exist_ok=True)
-    rc, out, _ = coq_make(["extract/Extract.vo"])
+    rc, out, _ = coq_make(["extract/Extract%s.vo" % topic.capitalize()])
     if rc != 0:
         sys.stdout.write(out[-4000:])
-        raise SystemExit("extraction failed")
-    with Lock("ocaml"):
-        src_ml = os.path.join(COQ, "extract", "model.ml")
-        drv = os.path.join(VERIF, "ocaml", "driver.ml")
-        exe = os.path.join(od, "gmodel")
+        raise SystemExit("extraction failed for topic " + topic)
+    with Lock("ocaml-" + topic):
+        src_ml = os.path.join(COQ, "extract", "%s_model.ml" % topic)
+        pre = os.path.join(VERIF, "ocaml", "prelude.ml")
+        drv = os.path.join(VERIF, "ocaml", topic + ".ml")
+        exe = os.path.join(od, topic)
         stamp = os.path.join(od, "stamp")
         h = hashlib.sha256()
-        for f in (src_ml, src_ml + "i", drv):
+        for f in (src_ml, src_ml + "i", pre, drv):
             h.update(open(f, "rb").read())
         if os.path.exists(exe) and os.path.exists(stamp) and open(stamp).read() == h.hexdigest():
             return exe
         import shutil
         for f in (src_ml, src_ml + "i"):
             shutil.copy(f, od)
-        shutil.copy(drv, od)
-        rc, out = sh("ocamlfind ocamlopt -O2 -w -a -package str,zarith model.mli model.ml driver.ml -linkpkg -o gmodel 2>&1 || "
-                     "ocamlfind ocamlopt -w -a -package str,zarith model.mli model.ml driver.ml -linkpkg -o gmodel", cwd=od, timeout=1200)
+        modname = "%s_model" % topic
+        with open(os.path.join(od, "driver.ml"), "w") as g:
+            g.write("module B = Z  (* zarith, bound before the model's own module Z shadows it *)\n")
+            g.write("open %s\n" % modname.capitalize())
+            g.write(open(pre).read())
+            g.write(open(drv).read())
+        rc, out = sh("ocamlfind ocamlopt -O3 -w -a -package str,zarith %s.mli %s.ml driver.ml -linkpkg -o %s 2>&1"
+                     % (modname, modname, topic), cwd=od, timeout=1200)
         if rc != 0:
             sys.stdout.write(out[-4000:])
-            raise SystemExit("ocaml build failed")
+            raise SystemExit("ocaml build failed for topic " + topic)
         open(stamp, "w").write(h.hexdigest())
         return exe
 
@@ -300,10 +308,18 @@ def run_model(exe, sub, lines, timeout=600):
 
 # ---------------------------------------------------------------- findings, evidence, replays
 def known_findings():
-    p = os.path.join(VERIF, "KNOWN_FINDINGS.json")
-    if not os.path.exists(p):
-        return {"fixed": [], "known": []}
-    return json.load(open(p))
+    """KNOWN_FINDINGS.json (lead-owned) merged with findings/<Cnn>.json (one per property)."""
+    out = {"fixed": [], "known": []}
+    paths = [os.path.join(VERIF, "KNOWN_FINDINGS.json")]
+    fd = os.path.join(VERIF, "findings")
+    if os.path.isdir(fd):
+        paths += sorted(os.path.join(fd, f) for f in os.listdir(fd) if f.endswith(".json"))
+    for p in paths:
+        if os.path.exists(p):
+            d = json.load(open(p))
+            out["fixed"] += d.get("fixed", [])
+            out["known"] += d.get("known", [])
+    return out
 
 
 def write_replay(pid, payload):
